@@ -52,6 +52,9 @@ def _apply(src_dir: Path, m: dict) -> Optional[str]:
     return None
 
 
+REFORMAT = "__reformat_whole_tree__"
+
+
 def run_mutant(m: dict, repo: str = "/repo") -> dict:
     from .model import load_model, AnalysisError
     from . import report
@@ -62,7 +65,15 @@ def run_mutant(m: dict, repo: str = "/repo") -> dict:
         dst = tmp / "src" / "nanoemoji"
         dst.parent.mkdir(parents=True)
         shutil.copytree(Path(repo) / "src" / "nanoemoji", dst, ignore=shutil.ignore_patterns("__pycache__", "*.pyc"))
-        why = _apply(dst, m)
+        if m.get("edits") == REFORMAT:
+            # benign variant: every module re-printed by ast.unparse (comments, layout and line numbers all change)
+            import ast as _a
+            for f in dst.glob("*.py"):
+                f.write_text(_a.unparse(_a.parse(f.read_text())) + "\n")
+            m = dict(m, edits=[])
+            why = None
+        else:
+            why = _apply(dst, m)
         if why:
             return {"id": m["id"], "status": "skipped", "why": why}
         # must still compile
@@ -108,6 +119,9 @@ def run_mutant(m: dict, repo: str = "/repo") -> dict:
 
 def run_all(prop: Optional[str] = None, jobs: int = 16, repo: str = "/repo") -> Tuple[List[dict], float]:
     ms = load_mutants(prop)
+    props = [prop] if prop else sorted({p for m in ms for p in m["props"]})
+    for p in props:
+        ms.append(dict(id=f"{p.lower()}-benign-reformat-whole-tree", props=[p], expect="silent", edits=REFORMAT))
     t0 = time.time()
     if not ms:
         return [], 0.0
@@ -137,6 +151,31 @@ def run_for_property(prop: str, seed: int = 0) -> int:
         evp.write_text(json.dumps(ev, indent=1))
     except Exception as e:  # pragma: no cover
         print(f"ANALYSIS-ERROR property={prop} cannot update evidence with self-test: {e!r}")
+        return 2
+    # instance-complete mutation operators
+    auto_fail = []
+    try:
+        from . import automutate
+        t1 = time.time()
+        ares = automutate.run(prop=prop)
+        summ = automutate.summarise(ares)
+        ev = json.loads(evp.read_text())
+        ev["coverage"]["selftest"]["instance_complete_operators"] = summ
+        ev["wall_s"] = round(ev.get("wall_s", 0) + time.time() - t1, 3)
+        evp.write_text(json.dumps(ev, indent=1))
+        for op, d in summ.items():
+            if d["applicable"] == 0:
+                continue
+            ratio = (d["killed"] + d["error"]) / d["applicable"]
+            print(f"[{prop}] operator {op}: {d['killed']} reported + {d['error']} analysis-error of {d['applicable']} sites "
+                  f"({len(d['survivors'])} survivors)")
+            if ratio + 1e-9 < automutate.FLOORS.get(op, 1.0):
+                auto_fail.append(f"{op}: kill ratio {ratio:.2f} below {automutate.FLOORS.get(op, 1.0)} (survivors: {d['survivors'][:5]})")
+    except Exception as e:
+        auto_fail.append(f"automutate crashed: {e!r}")
+    for a in auto_fail:
+        print(f"ANALYSIS-ERROR property={prop} self-test {a}")
+    if auto_fail:
         return 2
     for r in failed:
         print(f"ANALYSIS-ERROR property={prop} self-test variant {r['id']} {r['status']}: expected {r.get('expect')}, "
